@@ -167,8 +167,16 @@ func collGen(r *rand.Rand, tier string, b collBias) collInput {
 			}
 		case x < wSpan+b.Tick:
 			d := advance()
+			live := r.Intn(3) == 0
+			if live && d == 0 {
+				d = 1
+			}
 			now += d
-			in.Ops = append(in.Ops, collOp{Op: "tick", D: d, W: r.Intn(8)})
+			if live {
+				in.Ops = append(in.Ops, collOp{Op: "ltick", D: d})
+			} else {
+				in.Ops = append(in.Ops, collOp{Op: "tick", D: d, W: r.Intn(8)})
+			}
 			// simulation: everything expired is (probably) gone; ME may keep some, good enough
 			n := 0
 			for i := range trs {
